@@ -89,7 +89,12 @@ func (c *Channel) read() {
 
 			verifYield("R_send")
 
-			c.Errs <- err
+			select {
+			case c.Errs <- err:
+			case <-c.done:
+				// Close is in progress and nobody will read the error any more
+				return
+			}
 
 			verifYield("R_sent")
 
